@@ -143,6 +143,13 @@ CLAIMED = {
              'rest (exactness) are monitored on every explored history.',
         note='Trusted: Coq kernel, extraction, Go recorders, rewriter + shim runtime, harness. NumProcessing <= limit rests on C02; metrics are monitored, not modelled.',
         technique='Coq exactness proofs for the length counters + differential tests + sampled-history monitors', ref='5 C17'),
+    'C18': dict(
+        text='Machine-checked, per pool node and for every interleaving of dispatcher, reaper, TunePool, Stop / Restart and completions: the goroutines serving a node are one while it is in '
+             'service plus one per unconsumed stop payload, none once it is out of service and its stop was consumed; a job handed to a node always finds a live goroutine with no stop ahead of it '
+             'and is receivable; jobs sent = received + in channel. Only the thread that took a node out of the idle list may send to it: per-node projections are replayed on the extracted model. '
+             'Pool size bound, idle trimming after expiry (virtual time), one idle worker at rest and the exact list of goroutines alive after Stop are monitored on every explored history.',
+        note='Theorems are about coq/SlicePool.v (one node). The bound on the number of nodes rests on C02 and is monitored. Trusted: Coq kernel, extraction, rewriter + shim runtime (virtual time), projection, harness.',
+        technique='Coq inductive invariant over a per-node ownership/channel transition system + lock-step trace validation', ref='5 C18'),
 }
 
 NA_REASON = 'check not built yet in this round (work in progress; see DESIGN.md section 9 for the order of work)'
